@@ -56,6 +56,13 @@ func (n *NonNil) at(v ssa.Value, at ssa.Instruction, seen map[ssa.Value]bool) bo
 		if nonNilCtors[CalleeName(x.Common())] {
 			return true
 		}
+		switch CalleeName(x.Common()) {
+		case "github.com/pkg/errors.Wrapf", "github.com/pkg/errors.Wrap", "github.com/pkg/errors.WithStack", "github.com/pkg/errors.WithMessage", "github.com/pkg/errors.WithMessagef":
+			// nil in, nil out
+			if len(x.Call.Args) > 0 {
+				return n.at(x.Call.Args[0], x, seen)
+			}
+		}
 	case *ssa.Phi:
 		for i, e := range x.Edges {
 			pred := x.Block().Preds[i]
